@@ -238,27 +238,35 @@ def check_constructs(ctx, fi, vdesc, trace, mach):
                            "row id must not become a property"), nontrivial_key=("ctor", cls))
 
 
-def r_lists(ctx: Ctx, model):
-    ctx.rule("D-read(lists): a writer that stores one row per element of a list-valued property has a reader that "
-             "accumulates repeated rows of one type into a list")
+def r_lists(ctx: Ctx, model, mach):
+    """repeated property rows of one type (what the writer stores for a list-valued property) come back as one list, in row order:
+    interpreted on the readers with a pinned two-row result of the property table"""
+    ctx.rule("D-read(lists): two stored rows (type T, values V1, V2) of one item reach the constructor as T=[V1, V2]; a single row as the "
+             "bare value")
+    I = mach.I
     for kind in ("adsorbate", "material"):
-        w = model.func(f"{SQLITE}.{kind}_to_db")
         r = model.func(f"{SQLITE}.{kind}s_from_db")
-        expands = any(isinstance(n, ast.For) and isinstance(n.iter, ast.Name) and
-                      any(isinstance(c, ast.Call) and isinstance(c.func, ast.Attribute) and c.func.attr == "execute" for c in ast.walk(n))
-                      and any(isinstance(p, ast.If) and "isinstance" in ast.unparse(p.test) and "list" in ast.unparse(p.test)
-                              for p in ast.walk(w.node))
-                      for n in ast.walk(w.node))
-        regroup = False
-        for n in ast.walk(r.node):
-            if isinstance(n, ast.If) and isinstance(n.test, ast.Compare) and isinstance(n.test.ops[0], ast.In):
-                body = ast.unparse(ast.Module(body=n.body, type_ignores=[]))
-                if re.search(r"\+\s*\[|\.append\(|\.extend\(", body):
-                    regroup = True
-        ctx.ob((not expands) or regroup, Finding("C08.D-read", r.where, f"{kind}s_from_db|list-properties-not-regrouped",
-                                                 f"{kind}_to_db stores one row per element of a list-valued property but {kind}s_from_db keeps "
-                                                 "only one of the rows: list-valued properties do not come back"),
-               nontrivial_key=("lists", kind))
+        ptab = f"{kind}_properties"
+        for nrows, want in ((2, ["V1", "V2"]), (1, "V1")):
+            mach.multi_rows = {ptab: nrows}
+            saved = dict(mach.cell_values)
+            mach.cell_values[(ptab, "type")] = "TYPEX"
+            mach.cell_values[(ptab, "value")] = ["V1", "V2"]
+            try:
+                seen = []
+                for oc, trace in mach.explore(lambda I: I.call_func(r, [], {"db_path": "USER.db", "verbose": False}, None)):
+                    for e in trace:
+                        if e[0] == "construct" and "TYPEX" in e[3]:
+                            seen.append(e[3]["TYPEX"])
+            finally:
+                mach.multi_rows = {}
+                mach.cell_values.clear()
+                mach.cell_values.update(saved)
+            ok = bool(seen) and all(v == want for v in seen)
+            ctx.ob(ok, Finding("C08.D-read", r.where, f"{kind}s_from_db|list-properties-not-regrouped" if nrows == 2 else f"{kind}s_from_db|single-row-property",
+                               f"{kind}s_from_db with {nrows} stored row(s) of one property type (values V1, V2) hands the constructor {seen[:2] or 'nothing'}; "
+                               f"required {want!r}" + (": list-valued properties do not come back" if nrows == 2 else "")),
+                   nontrivial_key=("lists", kind, nrows))
 
 
 def r_bool(ctx: Ctx, model, mach):
@@ -303,7 +311,7 @@ def run(ctx: Ctx):
     r_ddl(ctx, model, mach)
     r_collation(ctx, mach)
     r_paths(ctx, model, mach)
-    r_lists(ctx, model)
+    r_lists(ctx, model, mach)
     r_bool(ctx, model, mach)
     ctx.analysed["tables"] = sorted(mach.tables)
     ctx.extra["exhaustive"] = True
